@@ -30,7 +30,7 @@ def reread(path):
 
 def run(R: vlib.Run):
     from sigpyproc.readers import FilReader
-    R.rule = ("synthetic files at depths 1,2,4,8,32; transforms invert_freq, apply_channel_mask, extract_samps, extract_chans, extract_bands, "
+    R.rule = ("synthetic files at depths 1,2,4,8,32 (batch_size 1 or 200 for the multi-file extractions); transforms invert_freq, apply_channel_mask, extract_samps, extract_chans, extract_bands, "
               "downsample (tfactor,ffactor), subband (dm,nsub), remove_zerodm; every gulp in a spread incl. 1, non-dividing, > range; sub-ranges; "
               "distinct = (transform, depth, params, start, nsamps, gulp); non-trivial = more than one block")
     R.trusted += ["Coq 8.16.1 kernel + vm_compute", "tools/py2coq (kernels, plan arithmetic, call sites regenerated each run)",
@@ -104,7 +104,7 @@ def run(R: vlib.Run):
                     # --- extract_chans
                     chans = sorted(rng.sample(range(nch), 2))
                     R.case(("chans", nbits, start, nsamps, gulp, tuple(chans)), nontrivial=multi, regime="extract_chans")
-                    names = attempt("extract_chans", lambda: fil.extract_chans(chans, outfile_base=os.path.join(d, "ch"), gulp=gulp, start=start, nsamps=nsamps, quiet=True))
+                    names = attempt("extract_chans", lambda: fil.extract_chans(chans, outfile_base=os.path.join(d, "ch"), batch_size=rng.choice([1, 200]), gulp=gulp, start=start, nsamps=nsamps, quiet=True))
                     if names:
                         for cnum, nm in zip(chans, names):
                             check("extract_chans", sel[:, [cnum]], 32, {"chan": cnum}, path=nm)
@@ -114,7 +114,7 @@ def run(R: vlib.Run):
                     nb = rng.choice([cps, nch - cstart]) if (nch - cstart) % cps == 0 else cps
                     if (nb * nbits) % 8 == 0 and (cps * nbits) % 8 == 0:
                         R.case(("bands", nbits, start, nsamps, gulp, cstart, nb), nontrivial=multi, regime="extract_bands")
-                        names = attempt("extract_bands", lambda: fil.extract_bands(cstart, nb, chanpersub=cps, outfile_base=os.path.join(d, "bd"), gulp=gulp, start=start, nsamps=nsamps, quiet=True),
+                        names = attempt("extract_bands", lambda: fil.extract_bands(cstart, nb, chanpersub=cps, outfile_base=os.path.join(d, "bd"), batch_size=rng.choice([1, 200]), gulp=gulp, start=start, nsamps=nsamps, quiet=True),
                                         {"chanstart": cstart, "nchans_sel": nb, "chanpersub": cps})
                         if names is not None:
                             if len(names) != nb // cps:
